@@ -15,7 +15,7 @@ META = common.meta(
 
 def tasks(tier, seed):
     out = []
-    n = 90 if tier == 'quick' else 600
+    n = 90 if tier == 'quick' else common.thorough(600)
     for k in range(n):
         out.append(('vt.props.c03', 't3_case', {'seed': seed, 'k': k, 'backend': 'T3', 'd': 1 + k % 5,
                                                 'kind': ['real', 'complex', 'mixed'][k % 3], 'flavour': (k // 3) % 3}))
